@@ -556,4 +556,13 @@ def reMatches (k : ReKind) (lit s : Bytes) : Bool :=
 /-- `MatchPathRE.MatchWithError`: the expression sees `cleanPath(r.URL.Path)` (not lower-cased) -/
 def matchPathRE (k : ReKind) (lit path : Bytes) : Bool := reMatches k lit (cleanPath path)
 
+/-! ### a matcher set `{"host": […], "path": […]}` (routes.go `MatcherSet.MatchWithError`): every
+    matcher of the set must match; Provision of the set fails if one of its matchers' does -/
+
+/-- `Route.ProvisionMatchers` + `MatcherSets.AnyMatchWithError` for one set with a host and a path matcher -/
+def setCase (thr : Nat) (hosts pats : List Bytes) (rhost path esc : Bytes) : HostRes :=
+  match hostCase thr hosts rhost with
+  | .dup => .dup
+  | .res b => .res (b && pathCase pats path esc)
+
 end CaddyModel.C06
